@@ -107,6 +107,7 @@ def gen_cases(tier, seed):
                    rng.choice(CKSS), rng.random() < 0.5, rng.choice(IDW), rng.choice(SEQW), rng.random() < 0.5, rng.choice(DESTS), "alt",
                    content=rng.randrange(4))
         first["seq"] = [rng.choice(["empty", "small", "multi", "md_only"]) for _ in range(rng.choice([2, 2, 3]))]
+        first["refused_first"] = rng.choice([0, 0, 1, 2, 3, 4])
         cases.append(first)
     return cases
 
@@ -128,6 +129,18 @@ def run_sequence(case):
             mark = w.log.seq
             r = Runner(w, max_rounds=4 * 3 + 40, max_expiries=8)
             try:
+                if case.get("refused_first") and i == case["refused_first"] % len(case["seq"]):
+                    # a request which is refused with the documented error comes first; the valid one must run to completion all the same
+                    from spacepackets.util import ByteFieldGenerator
+
+                    from cfdppy.request import PutRequest
+
+                    bad = (PutRequest(ByteFieldGenerator.from_int(2, 99), w.src_path, w.dst_req_path, None, None) if case["refused_first"] % 2
+                           else PutRequest(w.dst_id, w.root / "srcdir" / "no-such-file.bin", w.dst_req_path, None, None))
+                    try:
+                        w.S.put(bad)
+                    except Exception:  # noqa: BLE001  (which error is raised is C19's subject)
+                        obs["refused_requests_before_a_valid_one"] = obs.get("refused_requests_before_a_valid_one", 0) + 1
                 ok = w.put()
                 if not ok:
                     viol.append({"clause": "put-request-refused", "transfer": i, "kind": kind})
@@ -209,4 +222,4 @@ def run_case(case):
     return {"viol": viol, "sig": sig, "obs": obs, "keys": keys, "sample": sample}
 
 
-REQUIRED = {"success_reports_checked": 100, "pdus_delivered": 1000, "transfers_on_reused_handlers": 100, "dest_dir_existing": 20}
+REQUIRED = {"success_reports_checked": 100, "pdus_delivered": 1000, "transfers_on_reused_handlers": 100, "dest_dir_existing": 20, "refused_requests_before_a_valid_one": 50}
